@@ -35,4 +35,45 @@ PROPS = {
         "not_covered": "Timestamp (rdata/dnssec.rs) and zonetree Version delegate to Serial; their delegation is covered by "
                        "Kani harnesses only where listed.",
     },
+    "C18": {
+        "level": "proof",
+        "units": ["base64", "base32", "base16"],
+        "kani": (
+            [{"group": "g0", "name": f"c18_b64_display_len{n}", "kind": "complete", "tier": "quick",
+              "what": f"base64::display of every {n}-octet chunk equals the RFC 4648 section 4 encoding (arithmetic spec)"} for n in (1, 2, 3)]
+            + [{"group": "g0", "name": f"c18_b32_display_len{n}", "kind": "complete", "tier": "quick",
+                "what": f"base32::display_hex of every {n}-octet chunk equals the RFC 4648 section 7 encoding without padding"} for n in (1, 2, 3, 4, 5)]
+            + [{"group": "g0", "name": "c18_b16_display_len1", "kind": "complete", "tier": "quick",
+                "what": "base16::display of every octet equals the RFC 4648 section 8 encoding"},
+               {"group": "g0", "name": "c18_char_to_digit16_matches_rfc", "kind": "complete", "tier": "quick",
+                "what": "core's char::to_digit(16) (assumed in units/base16) equals the RFC 4648 Base16 value function for every char"},
+               {"group": "g0", "name": "c18_b16_roundtrip_len1", "kind": "complete", "tier": "quick",
+                "what": "compiled base16 Decoder inverts display for every octet"}]
+            + [{"group": "g0", "name": f"c18_b64_roundtrip_len{n}", "kind": "complete", "tier": "quick",
+                "what": f"compiled base64 Decoder inverts display on every {n}-octet chunk"} for n in (1, 2, 3)]
+            + [{"group": "g0", "name": f"c18_b32_roundtrip_len{n}", "kind": "complete", "tier": "thorough", "timeout": 900,
+                "what": f"compiled base32 Decoder inverts display_hex on every {n}-octet chunk"} for n in (1, 2, 3, 4, 5)]
+            + [{"group": "g0", "name": "c18_b64_display_len5_bounded", "kind": "bounded", "bound": "5 octets (chunks 3+2)", "tier": "quick",
+                "what": "composition of base64::display over two chunks"},
+               {"group": "g0", "name": "c18_b32_display_len6_bounded", "kind": "bounded", "bound": "6 octets (chunks 5+1)", "tier": "quick",
+                "what": "composition of base32::display_hex over two chunks"},
+               {"group": "g0", "name": "c18_b16_display_len2_bounded", "kind": "bounded", "bound": "2 octets", "tier": "quick",
+                "what": "composition of base16::display over two octets"}]
+        ),
+        "explanation": "Decoder::{push, finalize} of base64, base32 (extended hex) and base16 and their helpers (real text) are proved "
+                       "to implement one step / the end of the RFC 4648 state machines (b64_step, b32_step, b16_step; alphabet tables "
+                       "proved equal to the RFC tables), with the representation invariant preserved on every exit, so no index or "
+                       "unwrap can panic for any call sequence on a growable target. Lemmas over those contracts: decode(encode(x)) == x "
+                       "for every octet string (induction over groups), splitting the text anywhere gives the same state "
+                       "(run_concat), Base16 accepts exactly even-length hex text. The encoders use slice::chunks and fmt::Write "
+                       "(outside Verus): Kani proves display* == the same RFC arithmetic per chunk length over all octet values.",
+        "not_covered": "Multi-chunk encoder output beyond the bounded harnesses rests on slice::chunks composing per chunk (assumed). "
+                       "SymbolConverter (scanner-side decoders) not yet under contract. Standard-alphabet Base32 is not implemented by the "
+                       "library. Fixed-capacity targets that refuse to grow (ShortBuf) are outside the contracts (D13). "
+                       "Non-canonical trailing bits are accepted by the decoders (RFC 4648 section 3.5 permits either).",
+        "assumptions": [
+            "decode()/decode_hex() iterate a &str (outside Verus' subset): their 4-line loops are represented by caller_model_* functions over the push/finalize contracts",
+            "octseq OctetsBuilder/FreezeBuilder/EmptyBuilder are modelled by prelude traits (append_slice appends or fails leaving the content unchanged)",
+        ],
+    },
 }
